@@ -514,6 +514,28 @@ func genDT(c *Case, rng *vrt.Rand, tier string) func(r *Runner, i int) *Op {
 		}
 		op := &Op{K: cmds[rng.Pick(w)]}
 		op.Key = keys[rng.Intn(nkeys)]
+		// two thirds of the commands fit the current type of the key they address (deeper states of one structure);
+		// the rest is type-blind (wrong-type replies, re-creation with another type)
+		if m, ok := r.extra["dtmodel"].(*dtModel); ok && op.K != "restart" && rng.Chance(0.66) {
+			if k := m.keys[string(op.Key)]; k != nil {
+				var fit []string
+				switch k.kind {
+				case dtString:
+					fit = []string{"set", "dget", "dget", "type", "ddel"}
+				case dtHash:
+					fit = []string{"hset", "hset", "hget", "hdel", "type"}
+				case dtSet:
+					fit = []string{"sadd", "sadd", "sismember", "srem", "type"}
+				case dtList:
+					fit = []string{"lpush", "rpush", "lpop", "rpop", "lpop", "rpop"}
+				case dtZSet:
+					fit = []string{"zadd", "zadd", "zscore", "zscore"}
+				}
+				if len(fit) > 0 {
+					op.K = fit[rng.Intn(len(fit))]
+				}
+			}
+		}
 		op.F2 = fields[rng.Intn(nf)]
 		tag++
 		op.Val = &Val{Len: rng.Range(1, 24), Tag: tag}
@@ -524,6 +546,9 @@ func genDT(c *Case, rng *vrt.Rand, tier string) func(r *Runner, i int) *Op {
 			}
 		case "zadd":
 			op.F = float64(rng.Range(0, 5)) + float64(rng.Intn(4))*0.25
+			if rng.Chance(0.1) {
+				op.F = -float64(rng.Range(2, 9)) // negative scores (never -1, which the layer also uses for "absent")
+			}
 		case "restart":
 			op.Val = nil
 			op.Key = nil
